@@ -240,7 +240,7 @@ def groups(tier, seed):
 
 def single(case):
     return {'kind': 'one', 'argv': case['argv'], 'label': case.get('label'), 'expect': case.get('expect'), 'cli': True,
-            'stdin': case.get('stdin'), 'streams': case.get('streams')}
+            'stdin': case.get('stdin'), 'streams': case.get('streams'), 'tz': case.get('tz')}
 
 
 # ------------------------------------------------------------------ evaluation
@@ -259,6 +259,8 @@ def get_jail(env):
 
 STREAM_ARGVS = [['--help'], ['--version'], [], ['-i'], ['--nocolor'], ['name from /work'], ['name from /work into json'], ['count(*) from /work'], ['name from /work order by 7'],
                 ['name from /nonexistent'], ['name from /work where name rx ('], ['name, size from /work order by size limit 2 into csv']]
+ZONES = ['XXX-24', 'XXX+24', '<-24>24', 'XXX-24:59:59', 'XXX+24:59:59', 'AAA+23BBB-24,M3.2.0,M11.1.0', 'XXX-23:59:59', 'XXX+0', '', ':', 'nonsense', 'XXX-25', 'XXX+99', ':/nonexistent',
+         'UTC0', 'A-1', '<+1245>-12:45<+1345>,M9.5.0/2:45,M4.1.0/3:45', 'XXX-14', 'XXX+12', 'EST5EDT,0,365', 'EST5EDT,J1,J365/25', 'x' * 300]
 STREAM_STATES = [{'stdout': 'full'}, {'stdout': 'epipe'}, {'stderr': 'full'}, {'stderr': 'epipe'}, {'stdout': 'epipe', 'stderr': 'epipe'}, {'stdout': 'full', 'stderr': 'full'}]
 
 
@@ -401,6 +403,24 @@ def eval_group(env, group, tier):
                 else:
                     agg['cases'] += 1
                     agg['nt'] += 1
+        # time zones at the edge of what a TZ string may say (an offset of a whole day is legal POSIX)
+        for tz in ZONES:
+            for a in (['name, modified from /work limit 2'], ['name from /work where modified < today'], ["name from /work where modified > '2020-01-01' and accessed >= -3"],
+                      ['curdate() from /work limit 1'], ['name from /work order by modified limit 1'], ['name from /work where modified = yesterday or created > 2020-05-05']):
+                o = core.run_jailed(env, j['root'], a, timeout=10.0, cwd='/work', extra_env={'TZ': tz})
+                cls, detail = judge(o)
+                case = {'argv': a, 'label': 'zone', 'tz': tz, 'expect': None}
+                if cls:
+                    outs.append({'case': case, 'status': 'viol', 'cls': cls, 'detail': dict(detail, argv=a, tz=tz), 'nt': True, 'sig': ('viol', cls), 'layer': 'argv-zone'})
+                else:
+                    agg['cases'] += 1
+                    agg['nt'] += 1
+    elif kind == 'one' and group.get('label') == 'zone':
+        o = core.run_jailed(env, j['root'], group['argv'], timeout=10.0, cwd='/work', extra_env={'TZ': group['tz']})
+        cls, detail = judge(o)
+        if cls:
+            outs.append({'case': {'argv': group['argv'], 'label': 'zone', 'tz': group['tz'], 'expect': None}, 'status': 'viol', 'cls': cls,
+                         'detail': dict(detail, argv=group['argv'], tz=group['tz']), 'nt': True, 'sig': ('viol', cls), 'layer': 'argv-zone'})
     elif kind == 'one' and group.get('label') == 'streams':
         o = core.run_jailed(env, j['root'], group['argv'], timeout=10.0, cwd='/work', streams=group['streams'])
         cls, detail = judge(o)
